@@ -47,6 +47,45 @@ macro_rules! int_function {
     };
 }
 
+/// Returns the argument of `min` (`minimum == true`) or `max` that is numerically smallest or largest.
+fn extremum<NumericTypes: EvalexprNumericTypes>(
+    argument: &Value<NumericTypes>,
+    minimum: bool,
+) -> Result<Value<NumericTypes>, EvalexprError<NumericTypes>> {
+    let arguments = match argument {
+        Value::Tuple(tuple) => tuple.clone(),
+        Value::Int(_) | Value::Float(_) => vec![argument.clone()],
+        value => return Err(EvalexprError::expected_tuple(value.clone())),
+    };
+    let mut best: Option<Value<NumericTypes>> = None;
+    for argument in arguments {
+        let number = argument.as_number()?;
+        let replace = match &best {
+            None => true,
+            Some(Value::Int(best_int)) if argument.is_int() => {
+                let int = argument.as_int()?;
+                if minimum {
+                    int < *best_int
+                } else {
+                    int > *best_int
+                }
+            },
+            Some(best) => {
+                let best = best.as_number()?;
+                if minimum {
+                    number < best
+                } else {
+                    number > best
+                }
+            },
+        };
+        if replace {
+            best = Some(argument);
+        }
+    }
+    best.ok_or_else(|| EvalexprError::expected_number(Value::Empty))
+}
+
 pub fn builtin_function<NumericTypes: EvalexprNumericTypes>(
     identifier: &str,
 ) -> Option<Function<NumericTypes>> {
@@ -113,50 +152,8 @@ pub fn builtin_function<NumericTypes: EvalexprNumericTypes>(
             }
             .into())
         })),
-        "min" => Some(Function::new(|argument| {
-            let arguments = argument.as_tuple()?;
-            let mut min_int = NumericTypes::Int::MAX;
-            let mut min_float = NumericTypes::Float::MAX;
-            debug_assert!(min_float.is_infinite());
-
-            for argument in arguments {
-                if let Value::Float(float) = argument {
-                    min_float = min_float.min(&float);
-                } else if let Value::Int(int) = argument {
-                    min_int = min_int.min(int);
-                } else {
-                    return Err(EvalexprError::expected_number(argument));
-                }
-            }
-
-            if (NumericTypes::int_as_float(&min_int)) < min_float {
-                Ok(Value::Int(min_int))
-            } else {
-                Ok(Value::Float(min_float))
-            }
-        })),
-        "max" => Some(Function::new(|argument| {
-            let arguments = argument.as_tuple()?;
-            let mut max_int = NumericTypes::Int::MIN;
-            let mut max_float = NumericTypes::Float::MIN;
-            debug_assert!(max_float.is_infinite());
-
-            for argument in arguments {
-                if let Value::Float(float) = argument {
-                    max_float = max_float.max(&float);
-                } else if let Value::Int(int) = argument {
-                    max_int = max_int.max(int);
-                } else {
-                    return Err(EvalexprError::expected_number(argument));
-                }
-            }
-
-            if (NumericTypes::int_as_float(&max_int)) > max_float {
-                Ok(Value::Int(max_int))
-            } else {
-                Ok(Value::Float(max_float))
-            }
-        })),
+        "min" => Some(Function::new(|argument| extremum(argument, true))),
+        "max" => Some(Function::new(|argument| extremum(argument, false))),
         "if" => Some(Function::new(|argument| {
             let mut arguments = argument.as_fixed_len_tuple(3)?;
             let result_index = if arguments[0].as_boolean()? { 1 } else { 2 };
